@@ -42,6 +42,9 @@ pub fn resolve_res(
     let bank = defs.bankdefs.get(ctx.bank_ref);
     let res = defs.res_directives.get_mut(item_ref);
     let prev_value = res.reserve_size;
+
+    #[cfg(hlorenzi_customasm_verif)]
+    crate::verif::note("prev", crate::verif::V::I(prev_value as i128));
     
     res.reserve_size =
         <u32 as TryInto<usize>>::try_into(value).unwrap() *
